@@ -14,7 +14,7 @@ RULE = ('RESPONDER: a hub daemon with two configured peers holds e established I
         'count already exceeds the threshold and no presented cookie equals HMAC-SHA256(secret, SPIi | Ni | source address) (computed with hmac), the reply is exactly '
         'one payload N(COOKIE) carrying that value, Message ID 0, zero DH operations in the step and the table is as before; with the right cookie and unchanged '
         'SPI / nonce / address the normal response (SA, KE, Nonce) follows. INITIATOR: a real initiator answered with N(COOKIE) must repeat its request with '
-        'Message ID 0, N(COOKIE) first and all original payloads byte-identical after it, and then completes against the independent responder. '
+        'Message ID 0, N(COOKIE) first and all original payloads byte-identical after it, a second challenge with another cookie must be answered with the NEW cookie first; then it completes against the independent responder. '
         'distinct = (threshold, e, h, cookie variant, outcome).')
 ASSUMPTIONS = ['at the boundary (count equal to the threshold) either behaviour is accepted; a cookie is only REQUIRED to be demanded once the existing half-open count exceeds the threshold',
                'with several cookies the property only forbids acceptance when none is right']
@@ -211,6 +211,27 @@ def initiator_case(ck, rng, i):
         ck.violation('repeated-request-does-not-carry-the-identical-original-payloads', {'first': [t for t, _ in rest1], 'second': [t for t, _ in rest2]}, sim.case)
         return
     ck.count('initiator.repeated_identically')
+    # a SECOND challenge with another cookie (the responder restarted / rotated its secret): the new cookie must come first and
+    # the original payloads must still follow unchanged
+    if i % 2 == 0:
+        cookie2 = gen.rb(rng, len(cookie)) if i % 4 == 0 else gen.rb(rng, 24)
+        res['payloads'][0]['data'] = cookie2
+        sim.inject(a, peer, me, codec.encode_clear(res))
+        ck.count('initiator.second_challenges')
+        if not sim.net:
+            ck.violation('initiator-did-not-repeat-its-request-after-a-second-cookie', {}, sim.case)
+            return
+        req3 = sim.net.pop(0).data
+        m3 = codec.decode(req3, strict_bodies=True)
+        p0 = m3['payloads'][0] if m3['payloads'] else None
+        non_cookie = [(x['type'], x['body']) for x in m3['payloads'] if not (x['type'] == codec.NOTIFY and x.get('ntype') == 16390)]
+        if p0 is None or p0['type'] != codec.NOTIFY or p0.get('ntype') != 16390 or p0['data'] != cookie2 or m3['mid'] != 0:
+            ck.violation('second-cookie-not-placed-first', {'first': p0 and (p0['type'], p0.get('ntype'), p0.get('data'))}, sim.case)
+            return
+        if non_cookie != rest1:
+            ck.violation('request-after-a-second-cookie-does-not-carry-the-original-payloads', {}, sim.case)
+            return
+        req2 = req3
     # and it completes normally against the independent responder (PSK only)
     if kw.get('auth') == 'rsa':
         return
@@ -261,4 +282,5 @@ def verdict(ck):
     ck.floor('grid cells', len(ck.sets['responder.grid']), 400)
     ck.floor('initiator cookie challenges', c['initiator.cookie_challenges'], 20)
     ck.floor('initiators that completed after the cookie round', c['initiator.completed_after_cookie'], 10)
+    ck.floor('second cookie challenges', c['initiator.second_challenges'], 8)
     return None
